@@ -185,8 +185,11 @@ def _params(draw):
         p["e"] = draw(st.sampled_from([0, 0.1, 0.2, 0.25, 0.34]))
     if draw(st.integers(0, 2)) == 0:
         p["o"] = draw(st.integers(1, 8))
-    if draw(st.integers(0, 4)) == 0:
+    r = draw(st.integers(0, 5))
+    if r == 0:
         p["noindels"] = True
+    elif r == 1:
+        p["indels"] = True  # overrides --no-indels and a file-wide noindels
     return p
 
 
@@ -256,6 +259,13 @@ def cli_case(draw):
             left = draw(st.text(alphabet="ACGT", max_size=4)) if spec["type"] in ("back", "suffix", "niback") else ""
             right = draw(st.text(alphabet="ACGT", max_size=4)) if spec["type"] in ("front", "prefix", "rightmost") else ""
             sc["reads"].append(left + "".join(mid) + right)
+            if draw(st.booleans()):
+                # ... and a sibling in the same run: the same copy with its own unreadable bases (both become the
+                # same string once N is read as A, which is how the index looks up reads with N)
+                mid = list(sn.replace("N", "A"))
+                for _ in range(draw(st.integers(1, k + 2))):
+                    mid[draw(st.sampled_from(cand))] = "N"
+                sc["reads"].append(left + "".join(mid) + right)
         elif r == 5:
             # a near miss: the adapter with one edit more than it tolerates, placed where the type wants it
             mid = list(sn.replace("N", "A"))
@@ -315,7 +325,8 @@ def effective_specs(sc):
         return {"type": t, "seq": seq,
                 "e": params.get("e", g["e"] if g["e"] is not None else 0.1),
                 "o": params.get("o", g["O"] if g["O"] is not None else 3),
-                "indels": not (params.get("noindels") or g["no_indels"]), "aw": True, "rw": g["rw"]}
+                "indels": False if params.get("noindels") else True if params.get("indels") else not g["no_indels"],
+                "aw": True, "rw": g["rw"]}
 
     for i, src in enumerate(sc["sources"]):
         if src["kind"] == "direct":
@@ -347,7 +358,7 @@ def render_cli(sc):
 
     def ptext(p):
         return "".join([f";e={p['e']}" if "e" in p else "", f";o={p['o']}" if "o" in p else "",
-                        ";noindels" if p.get("noindels") else ""])
+                        ";noindels" if p.get("noindels") else "", ";indels" if p.get("indels") else ""])
 
     for i, src in enumerate(sc["sources"]):
         if src["kind"] == "direct":
